@@ -29,6 +29,27 @@ fn outcome<R>(r: &Result<R, Box<dyn std::any::Any + Send>>) -> (&'static str, &'
     }
 }
 
+/// run `f` from a destructor while the thread is unwinding from an unrelated panic (a fixture's
+/// Drop run by the unwinder, with the injector still alive)
+fn during_unwind<R: Default>(f: impl FnOnce() -> R) -> R {
+    struct OnDrop<F: FnOnce() -> R2, R2>(Option<F>, *mut Option<R2>);
+    impl<F: FnOnce() -> R2, R2> Drop for OnDrop<F, R2> {
+        fn drop(&mut self) {
+            if let Some(f) = self.0.take() {
+                let r = f();
+                unsafe { *self.1 = Some(r) };
+            }
+        }
+    }
+    let mut slot: Option<R> = None;
+    let p: *mut Option<R> = &mut slot;
+    let _ = catch_unwind(AssertUnwindSafe(|| {
+        let _g = OnDrop(Some(f), p);
+        std::panic::panic_any(panics::UserPanic);
+    }));
+    slot.unwrap_or_default()
+}
+
 fn pair(a: usize, b: usize, form: &str, types: &Value) {
     let before = entry(fam::sig_addr(a));
     let os0 = os_calls();
@@ -107,7 +128,7 @@ fn run_bool(sc: &Value) {
     let fams = sc.get("bools").cloned().unwrap_or(json!([]));
     let n = fams.as_array().map(|x| x.len()).unwrap_or(0).min(fam::NBOOL);
     for k in 0..n {
-        for (v, form) in [(true, "typed"), (false, "typed"), (true, "unchecked")] {
+        for (v, form) in [(true, "typed"), (false, "typed"), (true, "unchecked"), (true, "typed-unwinding")] {
             let before = entry(fam::bg_addr(k));
             let os0 = os_calls();
             let mut inj = in_lib(InjectorPP::new);
@@ -115,6 +136,14 @@ fn run_bool(sc: &Value) {
                 in_lib(|| {
                     if form == "typed" {
                         inj.when_called(fam::bg_target(k)).will_return_boolean(v)
+                    } else if form == "typed-unwinding" {
+                        // the same request made while the thread is already unwinding: the verdict must not change
+                        let refused = during_unwind(|| {
+                            catch_unwind(AssertUnwindSafe(|| inj.when_called(fam::bg_target(k)).will_return_boolean(v))).is_err()
+                        });
+                        if refused {
+                            panic!("Signature mismatch: will_return_boolean requires (observed while unwinding)");
+                        }
                     } else {
                         // a pointer from the unchecked macros carries no signature at all
                         unsafe { inj.when_called_unchecked(fam::bg_target_unchecked(k)).will_return_boolean(v) }
